@@ -86,15 +86,35 @@ func doInProc(ctx *fasthttp.RequestCtx, q rreq) (restResp, string) {
 func runSeq(c c18Case) (obs, bad string) {
 	restInit()
 	irt.ResetPools()
-	var ctx *fasthttp.RequestCtx
+	var shared *fasthttp.RequestCtx
 	if c.Reuse {
-		ctx = &fasthttp.RequestCtx{}
+		shared = &fasthttp.RequestCtx{}
 	}
+	// with fresh contexts every response stays "in flight" (unread by the client) while the
+	// later requests are handled: what the handler produced must still be there afterwards
+	type inflight struct {
+		ctx  *fasthttp.RequestCtx
+		body string
+		i    int
+	}
+	var held []inflight
 	for i, q := range c.Reqs {
+		ctx := shared
+		if ctx == nil {
+			ctx = &fasthttp.RequestCtx{}
+		}
 		resp, d := doInProc(ctx, q)
 		obs += fmt.Sprintf("[%d %s]", resp.Status, trunc80(resp.Body))
 		if d != "" {
 			return obs, fmt.Sprintf("request %d (%s %s): %s", i, q.Method, q.uri(), d)
+		}
+		if !c.Reuse {
+			held = append(held, inflight{ctx, resp.Body, i})
+		}
+		for _, h := range held {
+			if now := string(h.ctx.Response.Body()); now != h.body {
+				return obs, fmt.Sprintf("the response to request %d changed while request %d was handled (before it was written out): was %s, now %s", h.i, i, trunc80(h.body), trunc80(now))
+			}
 		}
 	}
 	return obs, ""
